@@ -390,3 +390,35 @@ mod tests {
         Ok(())
     }
 }
+
+/// Verification hooks (add-only, compiled only with `--cfg gmsol_verif`).
+#[cfg(gmsol_verif)]
+pub mod verif {
+    use super::{Pool, PoolStorage};
+
+    /// Wrapper of [`Pool::set_is_pure`].
+    pub fn pool_set_is_pure(pool: &mut Pool, is_pure: bool) {
+        pool.set_is_pure(is_pure)
+    }
+
+    /// Wrapper of [`Pool::is_pure`].
+    pub fn pool_is_pure(pool: &Pool) -> bool {
+        pool.is_pure()
+    }
+
+    /// Raw stored amounts `(long_token_amount, short_token_amount)`.
+    pub fn pool_amounts(pool: &Pool) -> (u128, u128) {
+        (pool.long_token_amount, pool.short_token_amount)
+    }
+
+    /// Set the raw stored amounts.
+    pub fn pool_set_amounts(pool: &mut Pool, long_token_amount: u128, short_token_amount: u128) {
+        pool.long_token_amount = long_token_amount;
+        pool.short_token_amount = short_token_amount;
+    }
+
+    /// Revision stamp of a pool storage slot.
+    pub fn pool_storage_rev(storage: &PoolStorage) -> u64 {
+        storage.rev
+    }
+}
